@@ -421,8 +421,10 @@ def main():
                     violations.append((r, o, unexplained or fs))
                     all_obl.append(entry)
             else:
-                if kf:
-                    known_gone.append(kf[0])
+                unit_sites = {e.get("id") for e in r.get("extracts", [])}
+                for k in kf:
+                    if k["site"] == "*" or k["site"] in unit_sites:
+                        known_gone.append(k)
                 if r["status"] == "ok":
                     discharged += 1
                 else:
